@@ -6,35 +6,48 @@ Python's doubles bit for bit):
 * `tracklib/util/geometry.py`  `cartesienne`, `projection_droite` (with its `b == 0` special case
   **as coded**: it returns `(x, a)`), `proj_segment` (distance to the line, inclusion test with the
   eight comparisons, recomputation of the foot, nearest end otherwise), `proj_polyligne`
-  (near-zero-length segments skipped, strict `<` minimum, `UnboundLocalError` when nothing is kept);
+  (the answer starts as the first vertex `Xp[0], Yp[0]`, index 0 — `IndexError` on an empty polyline —,
+  near-zero-length segments skipped, strict `<` minimum; when nothing was kept, `distmin == 1e400`, the distance
+  to the first vertex is computed: `math.sqrt((x - xproj) ** 2 + (y - yproj) ** 2)`. This is the code since the
+  `fix:` commit 563eeba; before it the function raised `UnboundLocalError` when nothing was kept);
 * `tracklib/algo/mapping.py`   `__projOnTrack`, `mapOnTrack` (both branches);
 * second half of the file: the same functions with their argument forms (lists / numpy arrays, two sequences
   of unequal lengths) and on 3D positions (`Track.getX()/getY()`, `ENUCoords(xproj, yproj, 0)`).
 
 Scalar-polymorphic (core Lean only): `Float` in the driver, an ordered field in the theorems.
-`sqrt` is a parameter (`math.sqrt`). Python's `ZeroDivisionError` (float division by `±0.0`) and
-`UnboundLocalError` are explicit results. `x == 0` is written `x ≤ 0 ∧ 0 ≤ x` (same truth value on
+`sqrt` is a parameter (`math.sqrt`). Python's `ZeroDivisionError` (float division by `±0.0`), `IndexError`
+(`Xp[0]` on an empty polyline) and `OverflowError` (`v ** 2` on a Python float, S-forms only) are explicit results. `x == 0` is written `x ≤ 0 ∧ 0 ≤ x` (same truth value on
 IEEE doubles, NaN included, and on an ordered field), `math.fabs v` is `if 0 < v then v else 0 - v`
 (same value on doubles, `-0.0` included).
 
 The sentinel `distmin = 1e400` (= +inf), two forms (last part of the file):
 * `better / polyLoop / projPolyligne / polyLoopXY / projPolyligneXY` (the `none`-state forms): the sentinel is
-  the state `none` and EVERY distance is `<` it. This is the form the theorems of `Props/C20.lean` (and C10, through
-  `Model/MapMatch`) are about, and it is NOT what the code does on a distance that is itself `inf`/NaN.
+  the state `none` and EVERY distance is `<` it; when the loop ends in the state `none` (every segment skipped) the
+  answer is `firstVertex`: the first vertex, the distance to it (squares written `v * v`), index 0. This is the form the
+  theorems of `Props/C20.lean` (and C10, through `Model/MapMatch`) are about, and it is NOT what the code does on a
+  distance that is itself `inf`/NaN, nor where `v ** 2` raises.
 * `betterS / polyLoopS / projPolyligneS / polyLoopXYS / projPolyligneXYS` (the sentinel-faithful S-forms, taking
-  the sentinel `inf : α` as a parameter): the state `none` compares `dist < inf` as the code does (`dist < distmin` with
-  `distmin = 1e400`), so an input whose distances are all `inf`/NaN keeps nothing and raises `UnboundLocalError`
-  (e.g. `proj_polyligne([0, 1, 2], [0, 1, 0], inf, 0)`). These are what the code does: `Tie/C20.lean`
-  `tie_proj_polyligne_exact` proves the translation of the current source equal to `projPolyligneXYS` on ALL inputs,
-  and the driver (`Drv/C20.lean`) answers `proj_polyligne` requests with them (`inf := 1.0 / 0.0` at `Float`).
-The two forms agree whenever every distance the loop meets is `< inf` (`Lemmas/ProjSentinel.lean`
+  the sentinel `inf : α` and the squaring `sq : α → Except Err α` (`v ** 2`) as parameters): the state `none` compares
+  `dist < inf` as the code does (`dist < distmin` with `distmin = 1e400`), so an input whose distances are all
+  `inf`/NaN keeps nothing; after the loop the code's state `(distmin, xproj, yproj, iproj)` (`encS`: `(inf, Xp[0], Yp[0], 0)`
+  while nothing is kept) goes through `finishS`: `if distmin == 1e400: distmin = math.sqrt((x - xproj) ** 2 + (y - yproj) ** 2)`
+  evaluated literally (e.g. `proj_polyligne([0, 1, 2], [0, 1, 0], inf, 0) = (inf, 0, 0, 0)`, and
+  `proj_polyligne([0, 1, 2], [0, 1, 0], 1e200, 0)` raises `OverflowError` at `1e200 ** 2` on Python floats). These are what the
+  code does: `Tie/C20.lean` `tie_proj_polyligne_exact` proves the translation of the current source equal to
+  `projPolyligneXYS` on ALL inputs (with `sq v = pow v 2`, the translator's total `pow`), and the driver (`Drv/C20.lean`)
+  answers `proj_polyligne` requests with them (`inf := 1.0 / 0.0` at `Float`, `sq` raising where Python's float `**` does).
+The two forms agree whenever every distance the loop meets is `< inf`, a value `< inf` is not `== inf`, `inf == inf`, and
+`sq v = .ok (v * v)` (`Lemmas/ProjSentinel.lean`
 `projPolyligneXYS_eq`, `projPolyligneS_eq`): finite distances on doubles, any `inf` above the distances in an
 ordered field. -/
 namespace TV.Proj
 
 inductive Err where
   | zerodiv
-  | unbound
+  /-- `IndexError`: `Xp[0]` on an empty polyline (since 563eeba; the pre-fix code raised `UnboundLocalError` there) -/
+  | index
+  /-- `OverflowError`: `v ** 2` on a Python float whose square is outside the double range (sentinel-faithful forms only) -/
+  | overflow
   deriving DecidableEq, Repr
 
 section
@@ -133,13 +146,30 @@ def polyLoop (sqrt : α → α) (eps x y : α) :
         let cur' := if better r.1 cur then some (r.1, r.2.1, r.2.2, i) else cur
         polyLoop sqrt eps x y (p2 :: rest) (i + 1) cur'
 
-/-- `proj_polyligne(Xp, Yp, x, y)`: `(distmin, xproj, yproj, iproj)`; vertices given as pairs -/
+/-- the answer of `proj_polyligne` when no segment was kept (every segment skipped: all the vertices coincide up to
+`1e-16` per segment, or a single vertex): `xproj, yproj, iproj = Xp[0], Yp[0], 0` and, `distmin` being still the sentinel,
+`distmin = math.sqrt((x - xproj) ** 2 + (y - yproj) ** 2)` -/
+def firstVertex (sqrt : α → α) (x y x0 y0 : α) : α × α × α × Nat :=
+  (sqrt ((x - x0) * (x - x0) + (y - y0) * (y - y0)), x0, y0, 0)
+
+/-- `proj_polyligne(Xp, Yp, x, y)`: `(distmin, xproj, yproj, iproj)`; vertices given as pairs. `IndexError` (`Xp[0]`) on
+an empty polyline; the first vertex when every segment is skipped -/
 def projPolyligne (sqrt : α → α) (eps : α) (pts : List (α × α)) (x y : α) :
     Except Err (α × α × α × Nat) :=
-  match polyLoop sqrt eps x y pts 0 none with
-  | .error e => .error e
-  | .ok none => .error .unbound
-  | .ok (some r) => .ok r
+  match pts with
+  | [] => .error .index
+  | p0 :: _ =>
+    match polyLoop sqrt eps x y pts 0 none with
+    | .error e => .error e
+    | .ok none => .ok (firstVertex sqrt x y p0.1 p0.2)
+    | .ok (some r) => .ok r
+
+/-- the pre-fix `proj_polyligne` (before 563eeba), kept ONLY as the documented old variant: `none` stands for the
+`UnboundLocalError` it raised when no segment was kept. No theorem of the property is about it; `Props/C20.lean`
+`projPolyligne_vs_old` relates the two. -/
+def projPolyligneOld (sqrt : α → α) (eps : α) (pts : List (α × α)) (x y : α) :
+    Except Err (Option (α × α × α × Nat)) :=
+  polyLoop sqrt eps x y pts 0 none
 
 /-- `__projOnTrack(point, track)`: `(ENUCoords(xproj, yproj, 0), distmin, iproj)` -/
 def projOnTrack (sqrt : α → α) (eps : α) (pts : List (α × α)) (x y : α) :
@@ -243,13 +273,20 @@ def polyLoopXY (np : Bool) (sqrt : α → α) (eps x y : α) :
           polyLoopXY np sqrt eps x y (x2 :: xs) (y2 :: ys') (i + 1) cur'
     | _ => .error .index
 
-/-- `proj_polyligne(Xp, Yp, x, y)` on its two sequences (`np`: they are numpy arrays) -/
+/-- `proj_polyligne(Xp, Yp, x, y)` on its two sequences (`np`: they are numpy arrays). `Xp[0]` on an empty `Xp` is the
+kernel's `IndexError` (`.base .index`), `Yp[0]` on an empty `Yp` the front end's (`.index`, as for any `Yp` shorter than `Xp`) -/
 def projPolyligneXY (np : Bool) (sqrt : α → α) (eps : α) (X Y : List α) (x y : α) :
     Except ErrX (α × α × α × Nat) :=
-  match polyLoopXY np sqrt eps x y X Y 0 none with
-  | .error e => .error e
-  | .ok none => .error (.base .unbound)
-  | .ok (some r) => .ok r
+  match X with
+  | [] => .error (.base .index)
+  | x0 :: _ =>
+    match Y with
+    | [] => .error .index
+    | y0 :: _ =>
+      match polyLoopXY np sqrt eps x y X Y 0 none with
+      | .error e => .error e
+      | .ok none => .ok (firstVertex sqrt x y x0 y0)
+      | .ok (some r) => .ok r
 
 /-- `Track.getX()` on a list of positions -/
 def getXs (pts : List (α × α × α)) : List α := pts.map (fun p => p.1)
@@ -315,14 +352,38 @@ def polyLoopS (inf : α) (sqrt : α → α) (eps x y : α) :
         let cur' := if betterS inf r.1 cur then some (r.1, r.2.1, r.2.2, i) else cur
         polyLoopS inf sqrt eps x y (p2 :: rest) (i + 1) cur'
 
-/-- `proj_polyligne(Xp, Yp, x, y)` on a vertex list, sentinel-faithful: `UnboundLocalError` when no segment has a
-distance `< inf` (none kept, or all distances `inf`/NaN) -/
-def projPolyligneS (inf : α) (sqrt : α → α) (eps : α) (pts : List (α × α)) (x y : α) :
+/-- `a == b` on floats (`a ≤ b ∧ b ≤ a`: same truth value on IEEE doubles, NaN included, and on an ordered field) -/
+def isEq (a b : α) : Bool := decide (a ≤ b) && decide (b ≤ a)
+
+/-- the code's loop state `(distmin, xproj, yproj, iproj)` for a model state: `(1e400, Xp[0], Yp[0], 0)` while nothing is
+kept -/
+def encS (inf x0 y0 : α) : Option (α × α × α × Nat) → α × α × α × Nat
+  | none => (inf, x0, y0, 0)
+  | some r => r
+
+/-- the lines after the loop, literally, on the code's state:
+`if distmin == 1e400: distmin = math.sqrt((x - xproj) ** 2 + (y - yproj) ** 2)`; `sq` is `v ** 2` (it may raise) -/
+def finishS (inf : α) (sqrt : α → α) (sq : α → Except Err α) (x y : α) (s : α × α × α × Nat) :
     Except Err (α × α × α × Nat) :=
-  match polyLoopS inf sqrt eps x y pts 0 none with
-  | .error e => .error e
-  | .ok none => .error .unbound
-  | .ok (some r) => .ok r
+  if isEq s.1 inf then
+    match sq (x - s.2.1) with
+    | .error e => .error e
+    | .ok a =>
+      match sq (y - s.2.2.1) with
+      | .error e => .error e
+      | .ok b => .ok (sqrt (a + b), s.2.1, s.2.2.1, s.2.2.2)
+  else .ok s
+
+/-- `proj_polyligne(Xp, Yp, x, y)` on a vertex list, sentinel-faithful: when no segment has a distance `< inf` (none
+kept, or all distances `inf`/NaN) the first vertex and the distance to it -/
+def projPolyligneS (inf : α) (sqrt : α → α) (sq : α → Except Err α) (eps : α) (pts : List (α × α)) (x y : α) :
+    Except Err (α × α × α × Nat) :=
+  match pts with
+  | [] => .error .index
+  | p0 :: _ =>
+    match polyLoopS inf sqrt eps x y pts 0 none with
+    | .error e => .error e
+    | .ok cur => finishS inf sqrt sq x y (encS inf p0.1 p0.2 cur)
 
 /-- the loop of `proj_polyligne(Xp, Yp, x, y)` on its two sequences, sentinel-faithful (`polyLoopXY` with `betterS inf`) -/
 def polyLoopXYS (np : Bool) (inf : α) (sqrt : α → α) (eps x y : α) :
@@ -343,12 +404,17 @@ def polyLoopXYS (np : Bool) (inf : α) (sqrt : α → α) (eps x y : α) :
 
 /-- `proj_polyligne(Xp, Yp, x, y)` on its two sequences, sentinel-faithful (`inf` is the code's `1e400`): this is the
 function the translation of the current source is equal to on ALL inputs (`Tie/C20.lean` `tie_proj_polyligne_exact`) -/
-def projPolyligneXYS (np : Bool) (inf : α) (sqrt : α → α) (eps : α) (X Y : List α) (x y : α) :
+def projPolyligneXYS (np : Bool) (inf : α) (sqrt : α → α) (sq : α → Except Err α) (eps : α) (X Y : List α) (x y : α) :
     Except ErrX (α × α × α × Nat) :=
-  match polyLoopXYS np inf sqrt eps x y X Y 0 none with
-  | .error e => .error e
-  | .ok none => .error (.base .unbound)
-  | .ok (some r) => .ok r
+  match X with
+  | [] => .error (.base .index)
+  | x0 :: _ =>
+    match Y with
+    | [] => .error .index
+    | y0 :: _ =>
+      match polyLoopXYS np inf sqrt eps x y X Y 0 none with
+      | .error e => .error e
+      | .ok cur => (finishS inf sqrt sq x y (encS inf x0 y0 cur)).mapError ErrX.base
 
 end
 end TV.Proj
